@@ -225,12 +225,15 @@ def f4_expect(rec):
     return m
 
 
-def f4_tree(main, drop):
-    """f4_class computed from a tree (single drop-in directory per layer): no main file that can be opened and the first
-    consulted drop-in has a namesake in a higher layer"""
+def f4_tree(main, drop, pd=None):
+    """f4_class computed from a tree: no main file that can be opened and the first consulted drop-in has a namesake in a
+    higher layer (within a layer: drop-in directories in list order, names byte-wise)"""
     if any(k not in ("absent", "dangling") for k in main):
         return False
-    seq = [(l, n) for l in range(1, len(drop) + 1) for n in sorted(drop[l - 1]) if n not in (1, 7, 8)]
+    seq = []
+    for l in range(1, len(drop) + 1):
+        ns = [n for n in drop[l - 1] if n not in (1, 7, 8)]
+        seq += [(l, n) for n in sorted(ns, key=lambda n: ((pd[l - 1][n - 1] if pd else 1), n))]
     return bool(seq) and any(n == seq[0][1] for _, n in seq[1:])
 
 
@@ -1230,7 +1233,7 @@ def scenario_events(x, ent, out, paths, K, rej=(), attrs=None, flags=None, malfo
         else:
             got = listing_of_dump(nxt[0]) if nxt and nxt[0]["st"] else None
             events.append({"e": "end", "rc": rd["rc"], "has_obj": bool(rd.get("obj")) and not (rd["rc"] != "ECONF_SUCCESS" and rd.get("same")),
-                           "kind": "visible" if (f4_tree(t["main"], t["drop"]) if any(f[1] == 0 for f in dangling) else f4_class(x)) else "cfg",
+                           "kind": "visible" if (f4_tree(t["main"], t["drop"], pd_rows(x, ent)) if any(f[1] == 0 for f in dangling) else f4_class(x)) else "cfg",
                            "hist": [], "ents": sorted_ents(got or []), "heap_ok": heap_ok, "cbused": use_cb})
     return events
 
